@@ -1,5 +1,5 @@
 # The connection-recycling half of C29, runnable on its own (./check C29b).  props/C29.py (byte-level half, another
-# builder) is meant to absorb it: see docs/ps.md, section "C29b".
+# builder) runs the same observer and props file as its PARTS["recycle"]: see docs/ps.md, section "C29b".
 SPEC = dict(
     props_file="Props/C29b.v",
     level="proof",
@@ -7,10 +7,13 @@ SPEC = dict(
                     n={"quick": 250, "thorough": 8000}, shard=100, timeout={"quick": 900, "thorough": 6000})],
     search_factor=3,
     rule="DoStream / DoMultiStream of 1-5 commands (bulk payloads of 0 .. 3x the read-buffer size with marks at the buffer size, nil, error, "
-         "integer and simple-string replies) with read buffers 32 / 64 / 256 / 4096; the reply of one command cut after k bytes and the "
-         "connection closed (k random, offsets 0-39 favoured); an io.Writer failing after m bytes with a partial write; a context done before "
-         "the call; a context ending while the pooled connection is being set up; half of the calls on a recycled wire. After each call the "
-         "pool's books are read (verif export) and a follow-up stream checks the recycled connection. Non-trivial = at least one WriteTo or a context scenario",
+         "integer and simple-string replies) with read buffers 32 / 64 / 256 / 4096 and a stream pool of capacity 1 or 2; the reply of "
+         "command j (every j, final and non-final) cut after k bytes and the connection closed (k random, offsets 0-39 favoured); an "
+         "io.Writer failing after m bytes with a partial write; a context done before the call; a context ending while the pooled "
+         "connection is being set up (one call, or two in a row each forced onto a fresh connection); a context ending in the dial before / "
+         "after the connection is made; a failing dial; half of the calls on a recycled wire. After each call the pool's books are read "
+         "(verif export) and a follow-up stream checks that the pool still hands out a connection and that a recycled one is in sync. "
+         "Non-trivial = at least one WriteTo or a context scenario",
     trusted=["VerifSpoolStats (zz_verif_ps.go) reads pool.size / len(pool.list) under the pool lock",
              "the fake server's CloseMidReply / CloseAfter faults"],
     assumptions=["one reply is abstracted to streamTo's (n, err, clean); clean = exactly one reply was taken off the connection is the byte-level half's theorem (Props/C29.v)",
@@ -21,11 +24,13 @@ MANIFEST = dict(
     text="Proof (recycling half of C29): for every number of commands and every list of replies, draining a stream makes one WriteTo per reply "
          "read, in order, all of them when every reply is clean and up to the first unclean one otherwise (C29_one_per_cmd); the wire is stored "
          "exactly once, by the WriteTo of the last reply read, closed first exactly when a reply was unclean, and never touched again "
-         "(C29_store_once); nil / error replies are reported for their WriteTo only (C29_nil_err). At the level of the whole call the "
-         "statement is refuted by the early return on a done context (C29_store_once_call_refuted), characterised exactly "
-         "(…_characterised: never stored iff the context was done at the check) and proved otherwise (…_partial).",
-    note="Known findings: ctx-done-wire-leak (DESIGN D7, repair pending with builder lts) and writer-failure-misaligned (streamTo, repaired on "
-         "builder resp's branch). The byte-level half is Props/C29.v.",
+         "(C29_store_once); nil / error replies are reported for their WriteTo only (C29_nil_err). Over the whole call the wire taken from "
+         "the pool is stored exactly once on every path — done context at the check, closing pipe, failed flush, drained stream — "
+         "(C29_store_once_call) and the pool then accounts for exactly its idle list: one connection when the wire is still good, none "
+         "otherwise (C29_books). Tied to the code on every run incl. faults at every reply index and six context / dial scenarios.",
+    note="Two defects were found by obs_stream and repaired by their owners (fixed entries): DoStream returned on a done context without "
+         "storing the acquired wire (DESIGN D7; kept as C29_store_once_call_before_fix_refuted) and streamTo over-discarded after a failed "
+         "Write. The byte-level half is Props/C29.v.",
     technique="Coq proof (induction over the replies) + differential / oracle run with fault injection at byte offsets against a fake server",
     category="proof",
 )
